@@ -356,7 +356,7 @@ class C05(Property):
                         continue
                     total += 1
                     yield {"wrap": wrap, "len": 12, "ps": name_products([protos[i] for i in combo])}
-            for _ in range(3000 if full else 300):
+            for _ in range(2000 if full else 300):
                 combo = sorted(rng.randrange(len(protos)) for _ in range(4))
                 total += 1
                 yield {"wrap": wrap, "len": 12, "ps": name_products([protos[i] for i in combo])}
@@ -365,13 +365,13 @@ class C05(Property):
                                "small_scope_complete_up_to": 3 if full else 2}
 
     def cases(self, rng: random.Random, tier: str, deep: bool) -> Iterator[Dict[str, Any]]:
-        n_random = 10000 if deep else 1900
+        n_random = 8000 if deep else 1900
         n_directed = 6000 if deep else 1200
 
         def with_perms(case: Dict[str, Any], small: bool = False) -> Dict[str, Any]:
             n = len(case["ps"])
             if small:       # exhaustive family: every pair in both orders, larger ones in a few orders
-                case["perms"] = "all" if n <= 2 else 2
+                case["perms"] = "all" if n <= 2 else (1 if deep else 2)
             elif deep:
                 case["perms"] = "all" if n <= 4 else 10
             else:
